@@ -387,4 +387,17 @@ pub fn gen_c18(rng: &mut Rng, tier: Tier, out: &mut Vec<String>) {
         let _ = i;
         out.push(format!("jacobian f {} {} affine {}", wr_vec(&point), delta.wr(), VFn { comps, ext: None }.show()));
     }
+    // the same for the COMPLEX variant (seeded change S10-C18: only `jacobian_cmplx` restored by subtraction): the real part of x_k is tiny
+    // against the step, the imaginary part is not (so the coordinate is not negligible as a whole)
+    for _ in 0..(if tier == Tier::Quick { 12 } else { 240 }) {
+        let (m, n) = (1 + rng.below(4), 2 + rng.below(4));
+        let kk = rng.below(n - 1);
+        let kd = 4 + rng.below(6) as i32; let delta = 2f64.powi(-kd);
+        let mut point: Vec<Cmplx> = (0..n).map(|_| Cmplx::new(rng.range(-16, 16) as f64 / 4.0, rng.range(-16, 16) as f64 / 4.0)).collect();
+        let t = 2f64.powi(-kd - 56) * if rng.chance(50) { 1.0 } else { -1.0 };
+        point[kk] = Cmplx::new(t, if rng.chance(50) { t } else { rng.range(-8, 8) as f64 / 4.0 });
+        let comps: Vec<E<Cmplx>> = (0..m).map(|r| { let mut e: E<Cmplx> = Expr::Const(Cmplx::new(rng.range(-8, 8) as f64 / 2.0, rng.range(-4, 4) as f64 / 2.0));
+            for j in 0..n { let cf = if j == kk { if r == 0 || rng.chance(50) { Cmplx::new(2f64.powi(40), 0.0) } else { Cmplx::new(0.0, 0.0) } } else { Cmplx::new(rng.range(-8, 8) as f64 / 2.0, rng.range(-4, 4) as f64 / 2.0) }; e = add(e, mul(Expr::Const(cf), v(j))); } e }).collect();
+        out.push(format!("jacobian c {} {} affine {}", wr_vec(&point), delta.wr(), VFn { comps, ext: None }.show()));
+    }
 }
